@@ -80,7 +80,11 @@ def check_helper(case):
     p = case['p']
     if dtype == 'float':
         x = np.array([dec_float(v) for v in case['x']], dtype=float)
-        fill = dec_float(case['fill'])
+        if isinstance(case['fill'], dict):
+            # an integer-typed fill value for a float array: the same number, the series keeps its own values and dtype
+            fill = int(case['fill']['int']) if 'int' in case['fill'] else np.int64(case['fill']['npint'])
+        else:
+            fill = dec_float(case['fill'])
     else:
         x = np.array(case['x'], dtype=int)
         fill = int(case['fill'])
@@ -135,7 +139,7 @@ def gen_helpers(max_len, int_len):
                 x = [enc_float(FLOAT_ALPHABET[i]) for i in xs]
                 for fn in ('lag', 'lead', 'diff', 'dlog'):
                     for p in range(-n - 1, n + 2):
-                        for fill in FILLS:
+                        for fill in FILLS + [{'int': 0}, {'int': -1}, {'npint': 4}]:
                             yield {'fn': fn, 'dtype': 'float', 'x': x, 'p': p, 'fill': fill}
         for n in range(1, int_len + 1):
             for xs in itertools.product(INT_ALPHABET, repeat=n):
